@@ -1331,7 +1331,16 @@ func (r *JobRun) tickOp(op *Op, i int) *Violation {
 			return viol("C17", "error-handling", "outcome-without-the-sink-error", "cell %s: the sink rejected %v with \"scripted sink rejects ...\"; the recorded outcome says %q", cell, shortAll(lastRun.singleReject), lastErr)
 		}
 		if len(first.singleReject) == 0 && len(st.runs) == 1 && lastErr != "" {
-			return viol("C17", "error-handling", "outcome-error-without-rejection", "cell %s: nothing was rejected for good but the outcome says %q", cell, lastErr)
+			sig := "outcome-error-without-rejection"
+			if first.attempts == 0 {
+				// the run found nothing to deliver and never called the sink: the error is the one an earlier run met
+				sig += ":nothing-to-deliver"
+			}
+			v := viol("C17", "error-handling", sig, "cell %s: nothing was rejected for good but the outcome says %q", cell, lastErr)
+			if !IsKnown(v) {
+				return v
+			}
+			r.Stats["known:"+v.Oracle+"|"+v.Signature]++
 		}
 		// (e) accepted entities are in the sink
 		inSink := map[string]bool{}
@@ -1357,7 +1366,21 @@ func (r *JobRun) tickOp(op *Op, i int) *Violation {
 	reruns := len(st.runs) - 1
 	if !hasRerun || !failedFirst {
 		if reruns > 0 {
-			return viol("C17", "rerun", "rerun-without-cause", "cell %s: %d re-run(s) although hasRerun=%v failed=%v", cell, reruns, hasRerun, failedFirst)
+			sig := "rerun-without-cause"
+			quiet := true
+			for _, rn := range st.runs {
+				if rn.attempts > 0 {
+					quiet = false
+				}
+			}
+			if quiet {
+				sig += ":nothing-to-deliver"
+			}
+			v := viol("C17", "rerun", sig, "cell %s: %d re-run(s) although hasRerun=%v failed=%v", cell, reruns, hasRerun, failedFirst)
+			if !IsKnown(v) {
+				return v
+			}
+			r.Stats["known:"+v.Oracle+"|"+v.Signature]++
 		}
 	} else {
 		if reruns > maxRetries {
